@@ -155,7 +155,7 @@ class RunResult:
         self.fails = []       # dicts: kind, file, detail, source ('judge'|'harness'|'crash')
         self.stats = {}; self.tags = {}; self.records = 0; self.distinct = 0; self.samples = []; self.errors = []; self.wall = 0.0
 
-ASAN_ENV = {'ASAN_OPTIONS': 'detect_leaks=0:abort_on_error=0:allocator_may_return_null=1:detect_stack_use_after_return=0', 'UBSAN_OPTIONS': 'print_stacktrace=1'}
+ASAN_ENV = {'ASAN_OPTIONS': 'detect_leaks=0:abort_on_error=0:allocator_may_return_null=1:detect_stack_use_after_return=0:exitcode=99', 'UBSAN_OPTIONS': 'print_stacktrace=1:exitcode=99:halt_on_error=1'}
 
 def run_harness_and_judge(exe, mode, tier, seed, wd, tag, timeout=3000, extra_args=()):
     """runs `exe mode tier seed casefile crashfile`, then the Lean judge on the case file"""
@@ -169,6 +169,7 @@ def run_harness_and_judge(exe, mode, tier, seed, wd, tag, timeout=3000, extra_ar
             d = dict(x.split('=', 1) for x in l[6:].split(' ') if '=' in x)
             rr.fails.append(dict(kind=d.get('reason', '?'), file=d.get('file', ''), detail=l[6:], source='harness', case=d.get('case')))
         elif l.startswith('SAMPLE '): rr.samples.append(l[7:])
+    if rc in (0, 1) and 'STAT cfails' not in out: rc = 98          # the harness did not reach its end
     if rc not in (0, 1):
         kind = 'sanitizer_abort' if ('AddressSanitizer' in err or 'runtime error' in err) else ('timeout' if rc == 124 else 'harness_crash')
         m = re.search(r'(ERROR: AddressSanitizer: [^\n]*|runtime error: [^\n]*)', err)
